@@ -406,74 +406,125 @@ def _destructurings(fn, fl, min_targets=5):
     return out
 
 
-def _split_formats(ctx, pkg):
-    """The separator-split formats by the POSITION in the split record each value is read from, whatever the way the record is taken
-    apart: one starred destructuring (`idx, code, *rps, _, a, .. = line.split(":")[:14]`), direct indexing / slicing of the record
-    (`fields[9]`, `fields[2:4]`), a namedtuple over the fields (read as the plain tuple, pymodel.folded)."""
-    from ..valueflow import strip_transparent
+class _Record:
+    """Positions in a separator-split record (`<line>.split(sep)`, possibly cut to its first N fields) of the values read from it,
+    whatever the way it is taken apart: starred destructuring, direct indexing, slices (of slices, negative bounds counted from the
+    end of a record of `n` fields), a dict of field names zipped with it, the fields listed one by one."""
     NONE = ("const", None)
+
+    def __init__(self, n):
+        self.n = n
+        self.from_end = False       # some position was counted from the end of the record
+        self.star = None            # the starred target of a destructuring, when one is used
+
+    @staticmethod
+    def split(v):
+        """(<line>.split(sep) IR, number of leading fields kept | None) when v is the split record"""
+        from ..valueflow import strip_transparent
+        v = strip_transparent(simp(v))
+        b0 = match(("sub", V("sp"), ("slice", _Record.NONE, ("const", V("n")), _Record.NONE)), v)
+        sp, total = (strip_transparent(b0["sp"]), b0["n"]) if b0 and isinstance(b0["n"], int) and b0["n"] >= 0 else (v, None)
+        if sp[0] == "meth" and sp[2] == "split" and len(sp) == 5:
+            return sp, total
+        return None
+
+    @staticmethod
+    def _int(x):
+        """-> (True, int | None) for a constant integer / absent bound"""
+        if x == _Record.NONE:
+            return True, None
+        if x[0] == "const" and isinstance(x[1], int) and not isinstance(x[1], bool):
+            return True, x[1]
+        if x[0] == "unop" and x[1] == "USub" and x[2][0] == "const" and isinstance(x[2][1], int) and not isinstance(x[2][1], bool):
+            return True, -x[2][1]
+        return False, None
+
+    @staticmethod
+    def keyed(v):
+        """`dict(zip(<literal names>, <record>))[<name>]` is <record>[<position of the name>]"""
+        from ..valueflow import strip_transparent
+        if v[0] == "sub" and v[2][0] == "const":
+            d = strip_transparent(simp(v[1]))
+            if d[0] == "call" and d[1] == ("global", "dict") and len(d[2]) == 1 and not d[3]:
+                z = strip_transparent(d[2][0])
+                if z[0] == "call" and z[1] == ("global", "zip") and len(z[2]) == 2 and not z[3] and z[2][0][0] in ("tuple", "list") \
+                        and all(e[0] == "const" for e in z[2][0][1]):
+                    names = [e[1] for e in z[2][0][1]]
+                    if names.count(v[2][1]) == 1:
+                        return ("sub", z[2][1], ("const", names.index(v[2][1])))
+        return v
+
+    def run(self, v, depth=0):
+        """(record value, first field, last field + 1) of a run of consecutive fields, or None"""
+        from ..valueflow import strip_transparent
+        v = strip_transparent(simp(v))
+        if depth > 6:
+            return None
+        r = self.split(v)
+        if r:
+            return v, 0, r[1] if r[1] is not None else self.n
+        if v[0] == "item" and isinstance(v[2], tuple) and v[2][0] == "star" and self.split(v[1]):
+            # the starred part of `a, b, *rest, y, z = record`: what the named targets before and after it leave
+            r = self.split(v[1])
+            width = r[1] if r[1] is not None else self.n
+            self.star, self.from_end = v[2], True
+            return strip_transparent(simp(v[1])), v[2][1], width - (v[2][2] - v[2][1] - 1)
+        if v[0] in ("list", "tuple") and v[1] and not any(e[0] == "star" for e in v[1]):
+            fs = [self.field(_unwrap(e)[0]) for e in v[1]]
+            if all(fs) and len({f_[0] for f_ in fs}) == 1 and [f_[1] for f_ in fs] == list(range(fs[0][1], fs[0][1] + len(fs))):
+                return fs[0][0], fs[0][1], fs[0][1] + len(fs)
+            return None
+        if v[0] == "sub" and v[2][0] == "slice" and v[2][3] == self.NONE:
+            (ol, lo), (oh, hi) = self._int(v[2][1]), self._int(v[2][2])
+            if not (ol and oh):
+                return None
+            if v[1][0] in ("list", "tuple"):
+                return self.run((v[1][0], v[1][1][slice(lo, hi)]), depth + 1)
+            base = self.run(v[1], depth + 1)
+            if base is None:
+                return None
+            length = base[2] - base[1]
+            if (lo is not None and lo < 0) or (hi is not None and hi < 0):
+                self.from_end = True
+            a_, b_, _ = slice(lo, hi).indices(max(length, 0))
+            return base[0], base[1] + a_, base[1] + max(a_, b_)
+        return None
+
+    def field(self, v):
+        """(record value, position) of one field, or None"""
+        v = self.keyed(simp(v))
+        k = x = None
+        if v[0] == "item" and isinstance(v[2], int):
+            x, k = v[1], v[2]
+        elif v[0] == "sub":
+            ok, k = self._int(v[2])
+            x = v[1] if ok and k is not None else None
+        if x is None:
+            return None
+        base = self.run(x)
+        if base is None:
+            return None
+        if k < 0:
+            self.from_end = True
+        p = base[1] + k if k >= 0 else base[2] + k
+        return (base[0], p) if base[1] <= p < base[2] else None
+
+
+def _split_formats(ctx, pkg):
+    """The separator-split formats by the POSITION in the split record each value is read from (_Record), whatever the way the record
+    is taken apart: one starred destructuring (`idx, code, *rps, _, a, .. = line.split(":")[:14]`), direct indexing / slicing of the
+    record (`fields[9]`, `fields[2:4]`, `rec[-5:]`), a namedtuple over the fields (read as the plain tuple, pymodel.folded)."""
     for cls, lay in LAYOUT.items():
         file = pkg.cls(cls).file
         fn = _parser(pkg, cls)
         fl = Flow(fn, file)
         n = lay["n"]
-
-        def record(v):
-            """v as (<line>.split(sep) IR, number of leading fields kept | None) when v is the split record (possibly cut to its first N fields)"""
-            v = strip_transparent(simp(v))
-            b0 = match(("sub", V("sp"), ("slice", NONE, ("const", V("n")), NONE)), v)
-            sp, total = (strip_transparent(b0["sp"]), b0["n"]) if b0 and isinstance(b0["n"], int) else (v, None)
-            if sp[0] == "meth" and sp[2] == "split" and len(sp) == 5:
-                return sp, total
-            return None
-
-        def keyed(v):
-            """`dict(zip(<literal names>, <record>))[<name>]` is <record>[<position of the name>]"""
-            if v[0] == "sub" and v[2][0] == "const":
-                d = strip_transparent(simp(v[1]))
-                if d[0] == "call" and d[1] == ("global", "dict") and len(d[2]) == 1 and not d[3]:
-                    z = strip_transparent(d[2][0])
-                    if z[0] == "call" and z[1] == ("global", "zip") and len(z[2]) == 2 and not z[3] and z[2][0][0] in ("tuple", "list") \
-                            and all(e[0] == "const" for e in z[2][0][1]):
-                        names = [e[1] for e in z[2][0][1]]
-                        if names.count(v[2][1]) == 1:
-                            return ("sub", z[2][1], ("const", names.index(v[2][1])))
-            return v
-
-        def scalar(v):
-            """(record value, position, counted from the end?) of one field of the record"""
-            v = keyed(v)
-            if v[0] == "item" and isinstance(v[2], int) and record(v[1]):
-                return strip_transparent(simp(v[1])), v[2]
-            if v[0] == "sub" and v[2][0] == "const" and isinstance(v[2][1], int) and not isinstance(v[2][1], bool) and record(v[1]):
-                return strip_transparent(simp(v[1])), v[2][1]
-            return None
+        R_ = _Record(n)
+        record, scalar = R_.split, R_.field
 
         def block(v):
-            """(record value, first field, last field + 1, star info | None) of a run of fields: a slice of the starred part of a destructuring or of the record itself"""
-            if v[0] in ("list", "tuple") and v[1]:
-                # the fields listed one by one: a run when they are consecutive fields of one record
-                fs = [scalar(_unwrap(e)[0]) for e in v[1]]
-                if all(fs) and len({f_[0] for f_ in fs}) == 1 and all(f_[1] >= 0 for f_ in fs) and [f_[1] for f_ in fs] == list(range(fs[0][1], fs[0][1] + len(fs))):
-                    return fs[0][0], fs[0][1], fs[0][1] + len(fs), None
-                return None
-            b = match(("sub", V("x"), ("slice", V("lo"), V("hi"), NONE)), v)
-            if b and b["x"][0] in ("list", "tuple") and b["lo"][0] == "const" and b["hi"][0] == "const" and all(x is None or (isinstance(x, int) and x >= 0) for x in (b["lo"][1], b["hi"][1])):
-                return block((b["x"][0], b["x"][1][b["lo"][1]:b["hi"][1]]))
-            if not b or b["lo"][0] != "const" or b["hi"][0] != "const" or not isinstance(b["hi"][1], int) or not (b["lo"][1] is None or isinstance(b["lo"][1], int)):
-                return None
-            lo, hi = b["lo"][1] or 0, b["hi"][1]
-            if lo < 0 or hi < 0:
-                return None
-            x = strip_transparent(b["x"])
-            if x[0] == "item" and isinstance(x[2], tuple) and x[2][0] == "star" and record(x[1]):
-                return strip_transparent(simp(x[1])), x[2][1] + lo, x[2][1] + hi, x[2]
-            if record(x):
-                return strip_transparent(simp(x)), lo, hi, None
-            inner = block(x)            # a slice of a slice: `rps = fields[2:8]` .. `rps[0:2]`
-            if inner:
-                return inner[0], inner[1] + lo, min(inner[2], inner[1] + hi), inner[3]
-            return None
+            r = R_.run(v)
+            return r if r is None or R_.split(v) is None else None          # the whole record is not a run of species fields
         pos = _positions(fl, set(lay["fields"]))
         seen = {}          # attribute -> (record value, position) | (record value, lo, hi, star)
         for attr in lay["fields"]:
@@ -493,8 +544,7 @@ def _split_formats(ctx, pkg):
         rec = recs.pop()
         sp, total = record(rec)
         src = show(rec)
-        star = next((x[0][3] for x in seen.values() if x[0] and len(x[0]) == 4 and x[0][3]), None)
-        from_end = any(x[0] and len(x[0]) == 2 and x[0][1] < 0 for x in seen.values())
+        star, from_end = R_.star, R_.from_end
         sep_ok = sp[3] == (("const", lay["sep"]),) and not sp[4]
         ctx.check(sep_ok, "R3", f"{cls}:separator", (file, fn.lineno), f"records are split at '{lay['sep']}'", found=src[-40:])
         if cls == "UMISTReaction":
@@ -529,7 +579,7 @@ def _split_formats(ctx, pkg):
             if got is None or got[0] != rec:
                 ctx.unrec("R5", f"{cls}:{attr}", (file, f.line), f"cannot see which field of the record self.{attr} is read from: {show(v)[:80]}")
                 continue
-            k = got[1] if got[1] >= 0 else width + got[1]
+            k = got[1]
             ctx.check(k == p and (conv is None or conv in wraps), "R5", f"{cls}:{attr}", (file, f.line),
                       f"self.{attr} = {conv or ''}(field {p})", expected=f"field {p} through {conv}", found=f"field {k} through {wraps}")
 
@@ -629,7 +679,11 @@ def _kida(ctx, pkg):
     ds = [(a, block(_fold_ir(v))) for a, v in _destructurings(fn, fl, 6)]
     dest = [a for a, blk in ds if blk == (end, None)]
     others = [a for a, blk in ds if blk != (end, None)]
-    if not dest:
+    decided = [o for o in ctx.obs if o.rule == "R5" and o.key.startswith("KIDA:")]
+    if not dest and not others and len(decided) == len(KIDA_TAIL) and all(o.outcome == "DISCHARGED" for o in decided) \
+            and all(_unwrap(simp(pos[a_].value))[0][0] == "sub" or (_unwrap(simp(pos[a_].value))[0][0] == "item" and _unwrap(simp(pos[a_].value))[0][2] >= 0) for a_ in KIDA_TAIL):
+        ctx.ok("R3", "KIDA:arity", (file, fn.lineno), "every token of the numeric tail is read by its position from the start of the tail (no destructuring whose arity could be wrong)")
+    elif not dest:
         ctx.unrec("R3", "KIDA:arity", (file, others[0].lineno if others else fn.lineno), f"no destructuring of the blank-separated text after column {end} into named fields")
     else:
         ctx.check(len(dest) == 1 and len(dest[0].targets[0].elts) == 13 and not any(isinstance(e, ast.Starred) for e in dest[0].targets[0].elts), "R3", "KIDA:arity", (file, fn.lineno),
@@ -787,14 +841,9 @@ def _r6(ctx, rm, pkg):
         ctx.unrec("R6", "UCLCHEM:default type", (UCF, fn.lineno), "the reaction type is not looked up as self.reactant2type.get(<marker token>, <default>)")
     else:
         tok, dflt = v[3]
-        # the marker is the second token of the record: item 1 of the split line, or element 1 of its starred head
-        pos = None
-        if tok[0] == "sub" and tok[2][0] == "const" and isinstance(tok[2][1], int) and tok[1][0] == "item" and isinstance(tok[1][2], tuple) and tok[1][2][0] == "star":
-            pos = tok[1][2][1] + tok[2][1] if tok[2][1] >= 0 else None
-        elif tok[0] == "item" and isinstance(tok[2], int) and tok[2] >= 0:
-            pos = tok[2]
-        elif tok[0] == "sub" and tok[2][0] == "const" and isinstance(tok[2][1], int) and tok[2][1] >= 0 and tok[1][0] == "meth" and tok[1][2] == "split":
-            pos = tok[2][1]
+        # the marker is the second token of the record, however the record is taken apart (_Record)
+        got = _Record(LAYOUT["UCLCHEMReaction"]["n"]).field(tok)
+        pos = got[1] if got else None
         if pos is None:
             ctx.unrec("R6", "UCLCHEM:default type", (UCF, st[0].line), f"cannot see which token of the record is the marker: {show(tok)[:80]}")
         else:
@@ -977,4 +1026,30 @@ BENIGN += [
     {"name": "krome-prefix-table-class-constant", "edits": [
         {"file": KR, "old": '        if line.startswith(("#", "//")):\n', "new": '        if line.startswith(cls._comment_marks):\n'},
         {"file": KR, "old": _KR_CLS, "new": '    _comment_marks = ("#", "//")\n\n' + _KR_CLS}]},
+]
+_UC_REC = '            *rpspec, a, b, c, lt, ut = react_string.split(",")\n'
+
+
+def _le_slices(a_hi=93):
+    tab = ('    _fields = {"idx": slice(0, 5), "reac": slice(5, 35), "prod": slice(35, 85), "a": slice(85, ' + str(a_hi) + '), "b": slice(93, 102), "c": slice(102, 112), '
+           '"lt": slice(112, 117), "ht": slice(117, 122), "type": slice(122, 125)}\n\n')
+    return [{"file": L, "old": "    def _parse_string(self, react_string) -> None:\n        self.source = \"leeds\"\n", "new": tab + "    def _parse_string(self, react_string) -> None:\n        self.source = \"leeds\"\n"},
+            {"file": L, "old": _LE_LISTS, "new": ""},
+            {"file": L, "old": _LE_LOOP, "new": "            for label, span in self._fields.items():\n                clip = react_string[span]\n"},
+            {"file": L, "old": "\n                stidx += len\n", "new": ""}]
+
+
+def _ki_indexed(itype=6):
+    return [{"file": K, "old": _KI_TAIL, "new": f"            tail = react_string[rlen + plen :].split()\n            a, b, c, itype, lt, ut, form, idx = tail[0], tail[1], tail[2], tail[{itype}], tail[7], tail[8], tail[9], tail[10]\n"}]
+
+
+MUTANTS += [
+    {"name": "uclchem-tail-slice-one-short", "file": UC, "old": _UC_REC, "new": '            rec = react_string.split(",")\n            rpspec = rec[:-5]\n            a, b, c, lt, ut = rec[-6:-1]\n', "rules": ["R5"]},
+    {"name": "leeds-slice-table-alpha-too-wide", "edits": _le_slices(a_hi=94), "rules": ["R4"]},
+    {"name": "kida-tail-indexed-itype-from-token-5", "edits": _ki_indexed(itype=5), "rules": ["R5"]},
+]
+BENIGN += [
+    {"name": "uclchem-record-negative-slices", "file": UC, "old": _UC_REC, "new": '            rec = react_string.split(",")\n            rpspec = rec[:-5]\n            a, b, c, lt, ut = rec[-5:]\n'},
+    {"name": "leeds-class-table-of-slices", "edits": _le_slices()},
+    {"name": "kida-tail-indexed", "edits": _ki_indexed()},
 ]
